@@ -48,27 +48,65 @@ func bundleSigRT(args []string) error {
 						Sig:       randBytes(r, sz[(k*5+id)%6]), Signed: randBytes(r, sz[(k+id*7)%6])})
 				}
 				b.Signatures = sigs
-				ev := map[string]interface{}{"case": fmt.Sprintf("sr%d", id), "kind": "wrsig", "b": in, "sigrec": sigsOf(sigs), "file": []int{}, "file2": []int{}, "file3": []int{},
-					"verdict": "error", "b2": emptyB(), "sigrec2": sigsOf(nil), "hassigs2": false}
-				file, _, werr, pan := writeBundle(b, []string{"plain", "rf", "bytewise"}[id%3])
-				ev["werr"] = werr != nil || pan
-				if werr == nil && !pan {
-					ev["file"] = ints(file)
-					b2, verdict := readBundle(file)
-					ev["verdict"] = verdict
-					if verdict == "ok" {
-						ev["b2"], ev["sigrec2"], ev["hassigs2"] = brecOf(b2), sigsOf(b2.Signatures), b2.Signatures != nil
-						if f2, _, err2, _ := writeBundle(b2, "plain"); err2 == nil {
-							ev["file2"] = ints(f2)
-							if b3, v3 := readBundle(f2); v3 == "ok" {
-								if f3, _, err3, _ := writeBundle(b3, "plain"); err3 == nil {
-									ev["file3"] = ints(f3)
+				// one write / read / write / read judgement of bundle b as it stands now (its section described by sigsOf at that moment)
+				judge := func(cid string, b *bundle.Bundle) *bundle.Bundle {
+					var first *bundle.Bundle
+					ev := map[string]interface{}{"case": cid, "kind": "wrsig", "b": in, "sigrec": sigsOf(b.Signatures), "file": []int{}, "file2": []int{}, "file3": []int{},
+						"verdict": "error", "b2": emptyB(), "sigrec2": sigsOf(nil), "hassigs2": false}
+					file, _, werr, pan := writeBundle(b, []string{"plain", "rf", "bytewise"}[id%3])
+					ev["werr"] = werr != nil || pan
+					if werr == nil && !pan {
+						ev["file"] = ints(file)
+						b2, verdict := readBundle(file)
+						ev["verdict"] = verdict
+						if verdict == "ok" {
+							first = b2
+							ev["b2"], ev["sigrec2"], ev["hassigs2"] = brecOf(b2), sigsOf(b2.Signatures), b2.Signatures != nil
+							if f2, _, err2, _ := writeBundle(b2, "plain"); err2 == nil {
+								ev["file2"] = ints(f2)
+								if b3, v3 := readBundle(f2); v3 == "ok" {
+									if f3, _, err3, _ := writeBundle(b3, "plain"); err3 == nil {
+										ev["file3"] = ints(f3)
+									}
 								}
 							}
 						}
 					}
+					emit(ev)
+					return first
 				}
-				emit(ev)
+				// the section of an object that has ALREADY been written (or that came out of the reader) is then changed through its
+				// exported fields - what appending a signer to a signed bundle does - and the object is written again: the file holds
+				// the section as it is NOW
+				edit := func(sg *bundle.Signatures, k int) {
+					if sg == nil {
+						return
+					}
+					switch k % 3 {
+					case 0:
+						sg.VouchedSubsets = append(sg.VouchedSubsets, &bundle.VouchedSubset{Authority: uint64(len(sg.Authorities)), Sig: randBytes(r, 70), Signed: randBytes(r, 24)})
+						sg.Authorities = append(sg.Authorities, &certurl.AugmentedCertificate{Cert: kcs[k%3].certs[0], OCSPResponse: randBytes(r, 9)})
+					case 1:
+						if len(sg.VouchedSubsets) > 0 {
+							sg.VouchedSubsets[0].Sig = randBytes(r, 1+len(sg.VouchedSubsets[0].Sig))
+						} else {
+							sg.VouchedSubsets = append(sg.VouchedSubsets, &bundle.VouchedSubset{Authority: 0, Sig: randBytes(r, 3), Signed: randBytes(r, 1)})
+						}
+					case 2:
+						if len(sg.VouchedSubsets) > 1 {
+							sg.VouchedSubsets = sg.VouchedSubsets[1:]
+						} else {
+							sg.VouchedSubsets = append(sg.VouchedSubsets, &bundle.VouchedSubset{Authority: 1 << 40, Sig: []byte{}, Signed: randBytes(r, 300)})
+						}
+					}
+				}
+				fromFile := judge(fmt.Sprintf("sr%d", id), b)
+				edit(b.Signatures, id)
+				judge(fmt.Sprintf("sr%d-edited-after-write", id), b)
+				if fromFile != nil && fromFile.Signatures != nil {
+					edit(fromFile.Signatures, id+1)
+					judge(fmt.Sprintf("sr%d-read-then-edited", id), fromFile)
+				}
 			}
 		}
 	}
